@@ -10,6 +10,7 @@ import Emu.Proofs.Regex
 import Emu.Proofs.Interleave
 import Emu.Bt.Server
 import Emu.Proofs.LeafTie.ValidateFilter
+import Emu.Proofs.LeafTie.IncludeCell
 
 namespace Emu.Props.C05
 open Emu Emu.Bt Emu.Proofs.Filter Emu.Proofs.Regex
@@ -191,5 +192,16 @@ off the Go text by `factx` on every run; it is the Model's `validFilter` (the fu
 theorem source_validateFilter_is_the_models (f : Filter) :
     Emu.Generated.Leaf.validateFilter f = validFilter f :=
   Emu.Proofs.LeafTie.validateFilter_tie f
+
+/-- `includeCell` (inmem.go) — the family, qualifier and value regexes, the column and value ranges with
+    their open / closed / unset ends, the timestamp range — read off the Go text by `factx` on every
+    run, is the Model's `includeCell` (the function `perCell_semantics`, `includeCell_tests` and
+    `inBounds_iff` above are about) on every filter that passes validation. -/
+theorem source_includeCell_is_the_models (f : Filter) (fam qual : Bytes) (c : Cell) (hv : validFilter f = true) :
+    Emu.Generated.Leaf.includeCell f fam qual c = includeCell f fam qual c :=
+  Emu.Proofs.LeafTie.includeCell_tie f fam qual c hv
+
+example : Emu.Generated.Leaf.includeCell (.valueRange (.opened []) .unset) [102] [113] ⟨1000, [], []⟩ = false ∧
+    Emu.Generated.Leaf.includeCell (.columnRange [102] (.closed [97]) (.opened [99])) [102] [98] ⟨0, [1], []⟩ = true := by decide
 
 end Emu.Props.C05
